@@ -49,21 +49,16 @@ Definition hfn (g : nat) (t : Z) : Z := Z.of_nat g * 100003 + 7 * t + 1.
 Record c12batch := Bt { bt_g : Z; bt_tasks : list Z; bt_evs : list ev; bt_ret : list (option Z) }.
 Record c12sess := Sess { se_W : Z; se_lb : bool; se_batches : list c12batch }.
 
-(* accepts: every batch's trace is a run of the transition system from the state the previous batch
-   left the pool in, ends with map returned, and the model's results are the list the real map returned *)
-Fixpoint sess_go (W : nat) (lb : bool) (mf : nat) (ws : list (worker Z Z)) (bs : list c12batch) : bool :=
-  match bs with
-  | [] => true
-  | b :: r =>
-      let g := Z.to_nat (bt_g b) in
-      match accepts_run hfn (Cfg W g (bt_tasks b) lb) mf ws (bt_evs b) with
-      | Some (res, ws') => list_eqb (opt_eqb Z.eqb) res (bt_ret b) && sess_go W lb g ws' r
-      | None => false
-      end
-  end.
-
+(* accepts: every batch's trace is a run of the transition system (Model.MPI.run_session, the
+   function c12_mpi_session_safety is about) from the state the previous batch left the pool in, ends
+   with map returned, and the model's results are the lists the real map calls returned *)
 Definition c12_sess_check (s : c12sess) : bool :=
-  sess_go (Z.to_nat (se_W s)) (se_lb s) 0 (fresh_workers (Z.to_nat (se_W s))) (se_batches s).
+  let W := Z.to_nat (se_W s) in
+  match run_session hfn W (se_lb s) 0 (fresh_workers W)
+          (map (fun b => (Z.to_nat (bt_g b), bt_tasks b, bt_evs b)) (se_batches s)) with
+  | Some rs => list_eqb (list_eqb (opt_eqb Z.eqb)) rs (map bt_ret (se_batches s))
+  | None => false
+  end.
 
 (* ---- evaluate_all pairing: solutions before, what the evaluator returned, solutions after ---- *)
 Definition sol_eqb (a b : sol) : bool :=
